@@ -75,6 +75,10 @@ pub struct HistCfg {
     pub descriptors: bool,
     #[serde(default)]
     pub walks: bool,
+    /// force a reopen after the first few writes (before any flush), and another one a few
+    /// operations later: recovery of a database whose first WAL was never recorded
+    #[serde(default)]
+    pub early_reopen: bool,
 }
 
 #[derive(Clone, Debug, Serialize, Deserialize)]
@@ -776,10 +780,34 @@ pub fn run_hist(
     } else {
         sess.observe();
         let nops = fixed.map_or(cfg.nops, |r| r.ops.len());
+        let early_at = rng.gen_range(1..4usize);
+        let early_gap = rng.gen_range(2..9usize);
         for i in 0..nops {
             let op = match fixed {
                 Some(r) => r.ops[i].clone(),
-                None => gen_op(&mut rng, &mut g, cfg, &sess.opts),
+                None => {
+                    if cfg.early_reopen && (i == early_at || i == early_at + early_gap) {
+                        g.nsnaps = 0;
+                        g.niters = 0;
+                        let mut o = sess.opts.clone();
+                        o.reuse = rng.gen_bool(0.7);
+                        Op::Reopen { opts: o }
+                    } else if cfg.early_reopen && i < early_at {
+                        Op::Put {
+                            k: gen_key(&mut rng, cfg),
+                            v: ValSpec {
+                                vid: {
+                                    g.next_vid += 1;
+                                    g.next_vid - 1
+                                },
+                                len: 12,
+                                comp: true,
+                            },
+                        }
+                    } else {
+                        gen_op(&mut rng, &mut g, cfg, &sess.opts)
+                    }
+                }
             };
             ops_done.push(op.clone());
             *CURRENT_REPLAY.lock() = Some(Replay {
